@@ -293,6 +293,9 @@ def im_jobs(tier, cons=False, fault=False):
                 if tier == "quick" and (B, nfs) == (3, 2) and level0 == 0:
                     continue
                 jobs.append(J("h_im:HIM", D=D, npts=2, level0=level0, B=B, nfs=nfs, cons="bool" if cons else None, fault=fault, seed=(B == 100 and nfs == 10)))
+    for level0 in (0, 1, 2):     # budgets of one and two evaluations
+        for B in (1, 2):
+            jobs.append(J("h_im:HIM", D=1, npts=2, level0=level0, B=B, nfs=(0 if B == 1 else 1), cons="bool" if cons else None, fault=fault, seed=False))
     for level0 in (0, 1):
         jobs.append(J("h_im:HIM", D=1, npts=2, level0=level0, B=100, nfs=10, cons="bool" if cons else None, fault=fault, seed=False, noise_size=0.05))
     if tier == "thorough":
@@ -354,6 +357,16 @@ def nb_jobs(tier):
     for D in (1, 2, 3):
         for t in ((1, 2, 7, 50) if tier == "quick" else tuple(range(1, 51))):
             jobs.append(J("h_nb:HAcq", n=2, D=D, t=t))
+    jobs += trainopts_jobs(tier)
+    return jobs
+
+
+def trainopts_jobs(tier):
+    jobs = [J("h_nb:HTrainOpts", D=D, rows=rows, iter=-1, second=False) for D in (1, 2) for rows in ((1, 3) if tier == "quick" else (1, 2, 3, 5))]
+    # recording iterations convert the cubic schedule to an int: concrete budget offsets, evaluation counts <= 3
+    for D in (1, 2):
+        for off in ((0, 1, 50) if tier == "quick" else (0, 1, 2, 10, 50, 1000)):
+            jobs.append(J("h_nb:HTrainOpts", D=D, rows=2, iter=2, second=(off == 1), B=off, ne_max=3))
     return jobs
 
 
@@ -705,11 +718,13 @@ def c09_jobs(tier):
         for pred in ("fin", "nan", "inf"):
             jobs.append(J("h_gs:HTarget", level=level, pred=pred))
     jobs += [J("h_bc:HBC", D=1, pat=_pat(1, x0=None), spell={v: sp for v in ("lb", "ub", "plb", "pub")}, nonlinear=False) for sp in ("list", "tuple", "scalar")]
+    jobs += trainopts_jobs(tier)
     return jobs
 
 
 C09_LABELS = {"returned_value_is_scalar", "target_values_support_item_as_callers_require", "refit_and_calibration_flags_are_booleans", "refit_resets_statistics",
-              "linalg_failures_do_not_abort", "empty_search_set_only_without_survivors", "valid_definition_not_rejected_by_init"}
+              "linalg_failures_do_not_abort", "empty_search_set_only_without_survivors", "valid_definition_not_rejected_by_init",
+              "training_restarts_at_least_final_value", "training_restarts_at_most_initial_value", "training_options_complete", "initial_design_size_recorded"}
 PROPS["C09"] = dict(
     jobs=c09_jobs, labels=C09_LABELS, required=sorted(C09_LABELS - {"valid_definition_not_rejected_by_init"}), exc_is_violation=True,
     bounds=dict(quick="unit level: every harness of this framework is run in the modes of the statement (noise level 0/1/2, constraints on/off, affine/log) with the obligation 'no exception outside the declared set on any feasible path'; rare internal histories: empty search set, every ES candidate infeasible, merged observation under specified noise, non-finite GP prediction, 0..3 saved GP statistics, LinAlgError schedules, early stop of a noisy run",
